@@ -461,7 +461,78 @@ def c09_jobs(tier):
     return jobs
 
 
+def c19_jobs(tier):
+    q = tier == "quick"
+    jobs = [job(MSG, "HNewHeader", [k]) for k in (0, 1, 2)] + [job(MSG, "HBuildResets", [])]
+    for w in range(17):
+        for k in (0, 1, 2):
+            for n in ((0, 1, 5) if q else (0, 1, 2, 5, 8, 33)):
+                if q and (w + k + n) % 2 == 1 and w != 11:
+                    continue
+                jobs.append(job(MSG, "HBuild", [w, k, n]))
+    nas = [0, 1, 2, 8, 64, 65534, 65535, 65536, 70000] if q else list(range(0, 9)) + [64, 255, 256, 65534, 65535, 65536, 65537, 70000]
+    for n in nas:
+        jobs.append(job(MSG, "HBuild3GPP", [0, n % 3, n, 0]))
+    qf = [0, 1, 8, 250, 251, 252, 255, 256, 300] if q else list(range(0, 9)) + list(range(248, 258)) + [300]
+    for n in qf:
+        for fl in range(4):
+            jobs.append(job(MSG, "HBuild3GPP", [1, (n + fl) % 3, n, fl]))
+    for w in (2, 3):
+        for a in range(4):
+            jobs.append(job(MSG, "HBuild3GPP", [w, a % 3, a, 0]))
+    for k in (0, 1, 2):
+        jobs.append(job(MSG, "HBuild3GPP", [4, k, 0, 0]))
+    return jobs
+
+
+def c18_jobs(tier):
+    """The write monitor runs inside a selection of the other properties' jobs (every operation the
+    property lists), with monitor_shared on: a Store / MapUpdate / in-place append / stub-declared write to
+    an object reachable from package-level state after init, or into an input buffer, is a violation."""
+    sel = []
+    def take(js, every):
+        for i, j in enumerate(js):
+            if i % every == 0:
+                sel.append(j)
+    take(c01_jobs("quick"), 6)
+    take(c03_jobs("quick"), 4)
+    take([j for j in c04_jobs("quick") if not j.get("cut") and j["params"][-1] % 4 == 0 and j["entry"] != "HDecodeDecryptArbitrary"], 3)
+    take([j for j in c04_jobs("quick") if j["entry"] == "HDecodeDecryptArbitrary" and j["params"][4] in (76, 80, 92, 96)], 5)
+    take(c07_jobs("quick"), 6)
+    take(c08_jobs("quick"), 10)
+    take([j for j in c09_jobs("quick") if j["entry"] in ("HAgreement", "HRandomNumber", "HNewIKESAKeyFault", "HPrimes")], 1)
+    take([dict(j, bytes_lens=[128, 127, 256, 255]) for j in c09_jobs("quick") if j["entry"] in ("HPublicValue", "HSharedKey")], 1)
+    take(c10_jobs("quick"), 25)
+    take(c11_jobs("quick"), 2)
+    take(c14_jobs("quick"), 12)
+    take(c15_jobs("quick"), 8)
+    take(c16_jobs("quick"), 12)
+    take(c17_jobs("quick"), 12)
+    take(c19_jobs("quick"), 5)
+    take(c20_jobs("quick"), 8)
+    if tier == "thorough":
+        sel.extend(c01_jobs("quick") + c03_jobs("quick") + c07_jobs("quick") + c08_jobs("quick") + c11_jobs("quick") + c14_jobs("quick") +
+                   c15_jobs("quick") + c16_jobs("quick") + c17_jobs("quick") + c19_jobs("quick") + c20_jobs("quick") + c10_jobs("quick"))
+    out = []
+    for j in sel:
+        j = dict(j)
+        j["monitor_shared"] = True
+        out.append(j)
+    return out
+
+
 PROPS = {
+    "C18": dict(jobs=c18_jobs, level="other", claim="Interleavings are not explored (a hand-written symbolic executor for Go has no scheduler model). What is decided, by the same engine on every feasible path of a selection of all other properties' jobs (encode, decode, protect, unprotect, key derivation, Diffie-Hellman, transform mapping, EAP processing, random number generation, builders), is the frame condition from which race freedom of independent operations follows: no write (Store, MapUpdate, in-place append, stub-declared write) targets an object reachable from package-level state after init, and decoders do not write into their input buffer (also asserted as 'input unchanged' in the C04 harnesses). Operations whose write sets contain only their own objects commute in every schedule.",
+                explanation="Frame condition (no write to shared package-level state, no write to input buffers) checked symbolically on every path of the selected jobs; schedules, GOMAXPROCS and the Go memory model are outside the claim. A violation is confirmed natively by running the same harness on four goroutines under the race detector.",
+                bounds=lambda t: "every %s job of the quick tables of C01, C03, C04, C07-C11, C14-C17, C19, C20 with the write monitor on" % ("k-th (k between 1 and 25, see lib/props.py)" if t == "quick" else "single"),
+                outside="schedules and interleavings themselves; crypto/rand.Reader and the read-only registries are trusted to be safe for concurrent use (documented by the standard library / never written after init, which is what the monitor checks)",
+                technique="frame-condition checking by bounded symbolic execution of the real Go code (write monitor over go/ssa -> SMT paths); counterexamples confirmed with the race detector",
+                note="Level 'other': race freedom is inferred from a decided frame condition, not from exploring schedules."),
+    "C19": dict(jobs=c19_jobs, claim="For each of the 17 container builders (and their sub-element builders), NewHeader / NewMessage, the accessors and the Reset helpers, with symbolic arguments and 0..2 earlier payloads: exactly one payload is appended, its fields equal the arguments field by field, the earlier payloads are the same objects and nothing reachable from them is written (frame condition); header: version 2.0, exactly the requested flag bits, accessors read bits 0x20 / 0x08. 3GPP helpers against the TS 24.502 layouts written out octet by octet (EAP-5G Start / NAS: vendor 10415, type 3, message id, spare, 16-bit NAS length, PDU; 5G_QOS_INFO: length, PDU session id, QFI count and list, DCSI 0x02 / DSCPI 0x01 flags, optional DSCP; NAS/UP IPv4 address; NAS TCP port), with sizes at and around every limit: oversize arguments give an error and append nothing.",
+                bounds=lambda t: "data lengths %s; NAS PDU lengths {0,1,2,8,64,65534,65535,65536,70000}%s; QFI counts {0,1,8,250,251,252,255,256,300}%s x all 4 flag combinations; 4 dotted-quad addresses; all non-zero ports" % (("{0,1,5}", "", "") if t == "quick" else ("{0,1,2,5,8,33}", " and 0..8, 255, 256, 65537", " and 248..257")),
+                outside="content of NAS PDUs / QFI lists longer than 64 / 16 octets is zero (only the length handling is exercised there); the 5G_QOS_INFO length octet is read as counting the whole value including itself (what the code emits and free5GC peers parse; TS 24.502 cannot be consulted offline)",
+                assumptions=["net.ParseIP is evaluated concretely by the engine (real standard-library function on the constant strings)"]),
+
     "C09": dict(jobs=c09_jobs, claim="Ground queries: the parsed modulus of both groups equals the RFC prime computed (not copied) from its defining formula with 900-digit pi, generator 2, modulus length 128 / 256. With big.Int.Exp uninterpreted (modexp < m for m > 0; modexp(modexp(g,a),b) = modexp(modexp(g,b),a)): for every exponent x < 2^2048 and peer value y < 2^2056, GetPublicValue / GetSharedKey return exactly the modulus-length big-endian image of 2^x / y^x mod p - the executor forks over every possible minimal length of the result, so leading zero octets are covered for every value; both parties' shared secrets agree; a generated exponent is the value delivered by the random source in that call, lies in [2^128, 2^2048), a second call returns a later draw, and a failing source at either call (and inside NewIKESAKey) gives an error and no key.",
                 bounds=lambda t: "group 2: all 129 minimal lengths of the result; group 14: %s; agreement under the assumption of full-length public and shared values; exponent rejection loop unwound twice (unwinding assumption: termination is probabilistic)" % ("minimal lengths {256,255,254,128,1,0}" if t == "quick" else "all 257 minimal lengths"),
                 outside="that math/big.Exp computes modular exponentiation and that two draws of the system source differ (trusted contracts of the standard library)",
